@@ -21,7 +21,6 @@ type pcase struct {
 	Rel      string   // path below the batch's src directory
 	Src      string   // file content
 	Features []string // syntactic feature tags (quarantine)
-	Twice    bool     // run the interpreter twice and skip the case when the two runs differ
 	NoRun    bool     // support file: translated and registered, never run as an entry
 }
 
@@ -183,16 +182,13 @@ func (b *batch) run(regTmpl, mainGo string) (res []*result, incon string) {
 		// ---- translate
 		_ = os.RemoveAll(b.out())
 		t0 := time.Now()
-		cr := lib.RunProc(lib.ProcSpec{Argv: []string{e.Origami(), "compile", b.src(), "-o", b.out(), "--pkg", "main", "--entry=" + b.src()}, Dir: b.dir, Timeout: 10 * time.Minute, Env: env})
+		cr := lib.RunProc(lib.ProcSpec{Argv: []string{e.Origami(), "compile", b.src(), "-o", b.out(), "--pkg", "main", "--entry=" + b.src()}, Dir: b.dir, Timeout: 5 * time.Minute, Env: env})
 		b.compileWall += time.Since(t0)
 		b.compilePasses++
-		if cr.TimedOut {
-			return res, "origami compile: watchdog fired"
-		}
-		if cr.Exit != 0 {
+		if cr.TimedOut || cr.Exit != 0 {
 			all := cr.Stdout + "\n" + cr.Stderr
 			progressed := false
-			if crash, _ := lib.GoCrash(cr); !crash {
+			if crash, _ := lib.GoCrash(cr); !crash && !cr.TimedOut {
 				for _, m := range reParseFail.FindAllStringSubmatch(all, -1) {
 					if r := byPath[filepath.Clean(m[1])]; r != nil && r.Status == stNotRun {
 						drop(r, stParseRej, strip(m[2]))
@@ -275,15 +271,29 @@ func (b *batch) run(regTmpl, mainGo string) (res []*result, incon string) {
 		r := todo[i]
 		p := b.abs(r.C)
 		wd := filepath.Dir(p)
-		r.Interp = b.exec([]string{e.Origami(), p}, wd)
-		if r.C.Twice && !r.Interp.TimedOut {
-			again := b.exec([]string{e.Origami(), p}, wd)
-			if again.Stdout != r.Interp.Stdout || again.Stderr != r.Interp.Stderr || again.Exit != r.Interp.Exit || again.Crash != r.Interp.Crash {
-				r.Unstable = true
+		interp := func() outcome { return b.exec([]string{e.Origami(), p}, wd) }
+		comp := func() outcome { return b.exec([]string{b.app(), p}, wd) }
+		r.Interp = interp()
+		r.Comp = comp()
+		r.Status = stRan
+		if r.Interp.TimedOut || r.Comp.TimedOut {
+			return
+		}
+		// The interpreter itself is not deterministic everywhere (Go map order reaches the
+		// output of some builtins; C20's business). Every case is interpreted twice, and a
+		// disagreement is only reported when five more runs of each side all reproduce it.
+		if !sameOutcome(interp(), r.Interp) {
+			r.Unstable = true
+			return
+		}
+		if k, _ := compare(r); k != "" {
+			for n := 0; n < 5; n++ {
+				if !sameOutcome(interp(), r.Interp) || !sameOutcome(comp(), r.Comp) {
+					r.Unstable = true
+					return
+				}
 			}
 		}
-		r.Comp = b.exec([]string{b.app(), p}, wd)
-		r.Status = stRan
 	})
 	return res, ""
 }
@@ -306,9 +316,14 @@ func (b *batch) classifySingly(res []*result, drop func(r *result, st, detail st
 		_ = os.MkdirAll(sd, 0o755)
 		f := filepath.Join(d, "src", r.C.Rel)
 		_ = os.WriteFile(f, []byte(r.C.Src), 0o644)
-		cr := lib.RunProc(lib.ProcSpec{Argv: []string{b.e.Origami(), "compile", filepath.Join(d, "src"), "-o", filepath.Join(d, "out"), "--pkg", "main", "--entry=" + filepath.Join(d, "src")}, Dir: d, Timeout: 5 * time.Minute})
+		cr := lib.RunProc(lib.ProcSpec{Argv: []string{b.e.Origami(), "compile", filepath.Join(d, "src"), "-o", filepath.Join(d, "out"), "--pkg", "main", "--entry=" + filepath.Join(d, "src")}, Dir: d, Timeout: 2 * time.Minute})
 		_ = os.RemoveAll(d)
-		if cr.Exit == 0 || cr.TimedOut {
+		if cr.TimedOut {
+			// the parser does not return on this file (C01's business): not accepted
+			vs[i] = verdict{stParseRej, "watchdog: the translator did not finish on this file alone"}
+			return
+		}
+		if cr.Exit == 0 {
 			return
 		}
 		all := cr.Stdout + "\n" + cr.Stderr
@@ -404,6 +419,10 @@ func head(s string, n int) string {
 		return s[:n] + "…"
 	}
 	return s
+}
+
+func sameOutcome(a, b outcome) bool {
+	return a.Stdout == b.Stdout && a.Stderr == b.Stderr && a.Exit == b.Exit && a.Crash == b.Crash && a.TimedOut == b.TimedOut
 }
 
 // compare returns "" when both sides agree, else the kind of disagreement and a detail.
